@@ -199,6 +199,9 @@ class JacobianAssembly:
     __minimal_couplings: set[str]
     """The minimal couplings."""
 
+    __minimal_states: set[str]
+    """The state variables of the disciplines required by the last diff in-outs."""
+
     coupled_system: CoupledSystem
     """The coupled derivative system of residuals."""
 
@@ -247,6 +250,7 @@ class JacobianAssembly:
         self.disciplines = {}
         self.__last_diff_inouts = (set(), set())
         self.__minimal_couplings = set()
+        self.__minimal_states = set()
         self.coupled_system = CoupledSystem()
         self.__linear_solver_factory = LinearSolverLibraryFactory(use_cache=True)
 
@@ -633,6 +637,7 @@ class JacobianAssembly:
             # The state variables are not coupling variables, although they are inputs
             # and outputs of the disciplines with residuals.
             self.__minimal_couplings = minimal_couplings.difference(states)
+            self.__minimal_states = set(couplings).intersection(states)
         return self.__minimal_couplings
 
     def total_derivatives(
@@ -697,6 +702,17 @@ class JacobianAssembly:
             states,
             self.coupling_structure,
         )
+
+        # The state equations of the disciplines that are not required to differentiate
+        # the functions with respect to the variables are not linearized:
+        # they are not part of the coupled system.
+        if residual_variables:
+            residual_variables = {
+                residual: state
+                for residual, state in residual_variables.items()
+                if state in self.__minimal_states
+            }
+            states = list(residual_variables.values())
 
         # Exclude the non-numeric couplings from the coupling minimal list
         for discipline in self.coupling_structure.disciplines:
